@@ -30,10 +30,22 @@ func verifScanRule(s *filterlist.RuleStorageScanner) (rules.Rule, int64) {
 	return verifScanRules[verifScanPos], verifScanIdx[verifScanPos]
 }
 
+// verifFailed[i]: some retrieval of the i-th registered rule failed during the query
+var verifFailed [8]bool
+
+func verifMarkFailed(idxs []int64, idx int64) {
+	for i := range idxs {
+		if idxs[i] == idx && i < len(verifFailed) {
+			verifFailed[i] = true
+		}
+	}
+}
+
 func verifRetrieveHostRule(s *filterlist.RuleStorage, idx int64) *rules.HostRule {
 	if verifFaulty {
 		verifFaultCalls++
 		if verifBool(vn("fault", verifFaultCalls, "")) {
+			verifMarkFailed(verifScanIdx, idx)
 			return nil
 		}
 	}
@@ -50,6 +62,7 @@ func verifRetrieveNetworkRuleDNS(s *filterlist.RuleStorage, idx int64) *rules.Ne
 	if verifFaulty {
 		verifFaultCalls++
 		if verifBool(vn("fault", verifFaultCalls, "")) {
+			verifMarkFailed(verifScanIdx, idx)
 			return nil
 		}
 	}
@@ -141,7 +154,8 @@ func verifC02(nh, nn, patLen, hostLen int) {
 			wantNet = append(wantNet, n)
 		}
 	}
-	basic := rules.GetDNSBasicRule(wantNet)
+	// on a copy: the reference list must not be touched by the function under test
+	basic := rules.GetDNSBasicRule(append([]*rules.NetworkRule(nil), wantNet...))
 	if verifSymbolic() {
 		for _, n := range netRules {
 			in := verifRuleIn(n, res.NetworkRules)
@@ -149,7 +163,16 @@ func verifC02(nh, nn, patLen, hostLen int) {
 			verifAssert(in == want, "c02: NetworkRules are exactly the DNS-applicable network rules that match the hostname")
 		}
 	} else {
-		verifAssert(len(res.NetworkRules) == len(wantNet), "c02: NetworkRules are exactly the DNS-applicable network rules that match the hostname")
+		// natively the engine holds its own parsed copies: compare by rule text
+		for _, n := range netRules {
+			in := false
+			for _, g := range res.NetworkRules {
+				if g.RuleText == n.RuleText {
+					in = true
+				}
+			}
+			verifAssert(in == verifRuleIn(n, wantNet), "c02: NetworkRules are exactly the DNS-applicable network rules that match the hostname")
+		}
 	}
 	verifAssert(rules.VerifClass(res.NetworkRule) == rules.VerifClass(basic), "c02: the basic rule has the reference class")
 	if basic != nil {
@@ -220,9 +243,29 @@ func verifC19DNS(nh, nn, patLen int) {
 	host := verifString("host", 2, "zq")
 	engine := NewDNSEngine(&filterlist.RuleStorage{})
 	verifFaulty, verifFaultCalls = true, 0
+	verifFailed = [8]bool{}
 	res, matched := engine.MatchRequest(&DNSRequest{Hostname: host})
 	verifFaulty = false
 	fresh := rules.NewRequestForHostname(host)
+	// a rule whose every retrieval succeeded (it can be read, or it is in memory) is served
+	// whatever happens to the other rules
+	for i, r := range verifScanRules {
+		if verifFailed[i] {
+			continue
+		}
+		switch x := r.(type) {
+		case *rules.NetworkRule:
+			if x.IsHostLevelNetworkRule() && x.Match(fresh) {
+				verifReach("c19.dns.served")
+				verifAssert(verifRuleIn(x, res.NetworkRules), "c19: a rule that can still be retrieved is served whatever happens to the others")
+			}
+		case *rules.HostRule:
+			if res.NetworkRule == nil && x.Match(host) {
+				verifReach("c19.dns.served")
+				verifAssert(verifHostIn(x, res.HostRulesV4) || verifHostIn(x, res.HostRulesV6), "c19: a rule that can still be retrieved is served whatever happens to the others")
+			}
+		}
+	}
 	for _, n := range res.NetworkRules {
 		verifAssert(n.Match(fresh), "c19: every network rule in a degraded DNS answer matches the hostname")
 	}
